@@ -71,6 +71,13 @@ type c26Feat struct {
 	// later send of A draws from X with a bounded overdraft; saveAcc/saveAsset name X and A
 	saveBeyondBalanceThenOverdraft bool
 	saveAcc, saveAsset             string
+	// a `send [A *]` draws from an account `allowing overdraft up to [B n]` with B != A
+	sendAllOverdraftOtherAsset bool
+	otherAssetAcc, otherAsset  string // the account and the asset of that overdraft bound
+	// two DIFFERENT source expressions (two variables, a variable and a literal) denote the
+	// same non-world account and are used, as plain or bounded-overdraft sources, for two
+	// different assets (coverage only: the aliasing stage must have produced such inputs)
+	aliasedSourceTwoAssets bool
 	// coarse construct flags for the generic signature
 	save, kept, srcAllot, dstAllot, star, twoSends bool
 }
@@ -163,6 +170,7 @@ func c26Features(p *gen.Program, env *gen.Env) c26Feat {
 	sends := 0
 	type pendingSave struct{ acc, asset string }
 	var clamped []pendingSave
+	usedFor := map[string]map[string]map[string]bool{} // account -> expression -> assets
 	for _, s := range p.Stmts {
 		switch s.K {
 		case gen.StSave:
@@ -195,6 +203,27 @@ func c26Features(p *gen.Program, env *gen.Env) c26Feat {
 						f.worldVarAsBoundedSource = true
 					}
 				}
+				if x.K == gen.SOver && s.All {
+					want, ok1 := stmtAsset(s, env)
+					got, _, ok2 := env.Monetary(x.Bound)
+					if acc, ok3 := env.Account(x.Acc); ok1 && ok2 && ok3 && want != got && !f.sendAllOverdraftOtherAsset {
+						f.sendAllOverdraftOtherAsset = true
+						f.otherAssetAcc, f.otherAsset = acc, got
+					}
+				}
+				if x.K == gen.SAcc || x.K == gen.SOver {
+					a, ok1 := env.Account(x.Acc)
+					asset, ok2 := stmtAsset(s, env)
+					if ok1 && ok2 && a != "world" {
+						if usedFor[a] == nil {
+							usedFor[a] = map[string]map[string]bool{}
+						}
+						if usedFor[a][x.Acc] == nil {
+							usedFor[a][x.Acc] = map[string]bool{}
+						}
+						usedFor[a][x.Acc][asset] = true
+					}
+				}
 				for _, c := range x.Sub {
 					walk(c)
 				}
@@ -214,6 +243,22 @@ func c26Features(p *gen.Program, env *gen.Env) c26Feat {
 		}
 	}
 	f.twoSends = sends > 1
+	for _, byExpr := range usedFor {
+		for e1, as1 := range byExpr {
+			for e2, as2 := range byExpr {
+				if e1 == e2 {
+					continue
+				}
+				for x := range as1 {
+					for y := range as2 {
+						if x != y {
+							f.aliasedSourceTwoAssets = true
+						}
+					}
+				}
+			}
+		}
+	}
 	return f
 }
 
@@ -338,6 +383,11 @@ const (
 	// machine: the funds of a kept clause stay at the head of the working funding, a later
 	// max clause takes them again, and the final take of the kept total runs short.
 	c26SigKeptThenMax = "C26:only-machine-fails:insufficient-funds:inorder-kept-clause-followed-by-max-clause"
+	// machine: OP_TAKE_ALL withdraws the asset of the OVERDRAFT monetary, whatever the asset
+	// of the `send [A *]` statement it serves: with `allowing overdraft up to [B n]`, B != A,
+	// the machine moves B (balance + n) and succeeds; the interpreter refuses the currency
+	// mismatch. (With a fixed amount both fail.)
+	c26SigSendAllOtherAsset = "C26:only-interpreter-fails:send-all-from-overdraft-bounded-in-another-asset:machine-moves-the-bound's-asset"
 )
 
 // c26Classify returns the signature of a disagreement on outcome or postings.
@@ -358,6 +408,9 @@ func c26Classify(f c26Feat, mres, ires *ledgercontroller.NumscriptExecutionResul
 		}
 		return "C26:only-machine-fails:" + kind + ":construct=" + cons
 	case ie != nil:
+		if f.sendAllOverdraftOtherAsset && c26MovesTheBoundsAsset(f, mres) {
+			return c26SigSendAllOtherAsset
+		}
 		return "C26:only-interpreter-fails:construct=" + cons
 	}
 	a, b := nonZero(mres.Postings), nonZero(ires.Postings)
@@ -379,6 +432,20 @@ func c26Classify(f c26Feat, mres, ires *ledgercontroller.NumscriptExecutionResul
 		}
 	}
 	return "C26:postings-differ:" + kind + ":construct=" + cons
+}
+
+// c26MovesTheBoundsAsset: the observable shape of c26SigSendAllOtherAsset: the machine
+// posted, from the account with the foreign overdraft bound, the asset of that bound.
+func c26MovesTheBoundsAsset(f c26Feat, mres *ledgercontroller.NumscriptExecutionResult) bool {
+	if mres == nil {
+		return false
+	}
+	for _, p := range mres.Postings {
+		if p.Source == f.otherAssetAcc && p.Asset == f.otherAsset {
+			return true
+		}
+	}
+	return false
 }
 
 func netEffect(ps []ledger.Posting) string {
@@ -508,12 +575,20 @@ func c26() int {
 	// sends, second asset; then variable amounts): a run cut by its budget has then covered
 	// every statement kind, and what is left uncovered is the tail of the big send products.
 	sp.Stages = c26StageOrder(sp.Stages)
+	// Before everything else (small, and never lost to a time cut): the aliasing stage. The
+	// other stages name every account through ONE expression per program (or one asset per
+	// account); here the same account is reached through two different expressions — two
+	// variables, a variable and a literal — used for different assets, which is where a runtime
+	// that batches its balance queries per expression and one that batches per account name
+	// can come apart.
+	alias := aliasStage(r.Thorough())
+	sp.Stages = append([]stage{alias}, sp.Stages...)
 	mp := ledgercontroller.NewDefaultNumscriptParser()
 	ip := ledgercontroller.NewInterpreterNumscriptParser(nil)
 	samples := ev.NewSamples(6)
 	var programs, inSubset, onlyMachine, onlyInterp, neither, excludedWorldVar atomic.Int64
 	var evals, bothFail, bothOK, agreeWithPostings, zeroIgnored, metaCompared, accMetaCompared, nontrivial, disagreements atomic.Int64
-	var txMetaAgreeNonEmpty, accMetaAgreeNonEmpty atomic.Int64
+	var txMetaAgreeNonEmpty, accMetaAgreeNonEmpty, aliasedInputs, aliasedAgree atomic.Int64
 	var disagreeKinds, boundary counterSet
 
 	stages, all := runStages(r, sp.Stages, func(p *gen.Program) {
@@ -545,6 +620,9 @@ func c26() int {
 				return
 			}
 			evals.Add(1)
+			if feat.aliasedSourceTwoAssets {
+				aliasedInputs.Add(1)
+			}
 			var mres, ires *ledgercontroller.NumscriptExecutionResult
 			var me, ie error
 			var mpanic, ipanic any
@@ -637,6 +715,9 @@ func c26() int {
 				}
 			}
 			if ok && len(a) > 0 {
+				if feat.aliasedSourceTwoAssets {
+					aliasedAgree.Add(1)
+				}
 				agreeWithPostings.Add(1)
 				progNontrivial = true
 				samples.Add(map[string]any{"program": text, "vars": env.Vars, "balances": balString(env.Bal), "postings_both": postingsText(a), "tx_meta": mres.Metadata, "account_meta": mres.AccountMetadata})
@@ -664,6 +745,8 @@ func c26() int {
 		r.EngineError("vacuous: transaction metadata was never compared on a non-empty value")
 	case accMetaAgreeNonEmpty.Load() == 0:
 		r.EngineError("vacuous: account metadata was never compared on a non-empty value")
+	case aliasedAgree.Load() == 0:
+		r.EngineError(fmt.Sprintf("vacuous: no input where two different source expressions denote the same account for two different assets and both runtimes succeed with postings (%d such inputs ran)", aliasedInputs.Load()))
 	}
 	cov := ev.Coverage{
 		"evaluations":                       evals.Load(),
@@ -689,8 +772,10 @@ func c26() int {
 		"account_metadata_comparisons":        accMetaCompared.Load(),
 		"account_metadata_agreeing_non_empty": accMetaAgreeNonEmpty.Load(),
 		"inputs_disagreeing":                  disagreements.Load(),
-		"disagreements_by_signature":          disagreeKinds.Map(),
-		"traces_validated_against_impl":       evals.Load(),
+		"inputs_with_one_account_through_two_source_expressions_for_two_assets":          aliasedInputs.Load(),
+		"inputs_with_one_account_through_two_source_expressions_for_two_assets_agreeing": aliasedAgree.Load(),
+		"disagreements_by_signature":    disagreeKinds.Map(),
+		"traces_validated_against_impl": evals.Load(),
 	}
 	return r.Finish(cov, []string{
 		"both adapters are the real ones of numscript_runtime.go, built by the real parsers of numscript_parser.go, and read the same in-memory store (GetBalances answers every queried pair, Accounts().GetOne returns the account's metadata)",
